@@ -143,3 +143,31 @@ Definition failing_cases (T : tables) (last : nat) (ws : list int) : list nat :=
   | Some (cs, []) => failing (chk_case T) cs
   | _ => [4999%nat]
   end.
+
+(* ---------------------------------------------------------------- the spec encoder against the independent encoder
+   (api, version, is_response, value of the message body, the body bytes the segmentio encoder wrote) *)
+Require Import V.Kafka.KafkaSpecEnc.
+Definition spec_case := (Z * Z * Z * kv * bytes)%type.
+
+Definition p_spec_case : P spec_case :=
+  do api <- p_i 2 ;; do ver <- p_i 2 ;; do resp <- p_u 1 ;; do v <- p_kv 64 ;; do body <- p_blob ;;
+  pret (api, ver, resp, v, body).
+
+Fixpoint grid_find (g : list (Z * Z * bool * ty)) (api ver : Z) (resp : bool) : option ty :=
+  match g with
+  | [] => None
+  | (a, v, r, t) :: g' => if (a =? api) && (v =? ver) && Bool.eqb r resp then Some t else grid_find g' api ver resp
+  end.
+
+Definition chk_spec (g : list (Z * Z * bool * ty)) (c : spec_case) : bool :=
+  let '(api, ver, resp, v, body) := c in
+  match grid_find g api ver (negb (resp =? 0)) with
+  | Some t => bytes_eqb (encode t v) body
+  | None => false
+  end.
+
+Definition failing_spec (g : list (Z * Z * bool * ty)) (last : nat) (ws : list int) : list nat :=
+  match (do n <- p_u 4 ;; p_many p_spec_case (Z.to_nat n)) (hx last ws) with
+  | Some (cs, []) => failing (chk_spec g) cs
+  | _ => [4999%nat]
+  end.
